@@ -811,7 +811,12 @@ def _d_tcp(d, off, end, ctx):
   _flds(l, off, ("sport", 2), ("dport", 2), ("seq", 4), ("ack", 4), ("offres", 1), ("flags", 1), ("win", 2),
         ("csum", 2), ("urg", 2))
   if ctx.get("embedded"):
-    d.payload = (off + 20, end)
+    doff = b[off + 12] >> 4
+    if doff >= 5 and off + doff * 4 <= end:
+      l["end"] = off + doff * 4
+      d.payload = (off + doff * 4, end)
+    else:
+      d.payload = (off + 20, end)
     return
   doff = b[off + 12] >> 4
   if doff < 5 or off + doff * 4 > end:
@@ -926,7 +931,7 @@ def _d_icmp6(d, off, end, ctx):
     _flds(e, o, ("id", 2), ("seq", 2))
     d.payload = (o + 4, end)
     return
-  if ty in (1, 2, 3, 4):
+  if ty in (1, 2, 3):
     _need(b, o, 4, end, "icmp6 error")
     e = d.layer("icmp6.err%d" % ty, o, o + 4)
     _flds(e, o, ("word", 4))
@@ -981,10 +986,7 @@ def _d_dhcp(d, off, end, ctx):
     l["f"]["opt%d_%d" % (k, code)] = (o, 2 + b[o + 1])
     o += 2 + b[o + 1]
     k += 1
-  if not seen_end:
-    d.checks.append({"name": "dhcp.end", "off": o, "size": 0, "got": None, "want": "END option"})
-  if any(b[o:end]):
-    d.checks.append({"name": "dhcp.trailer", "off": o, "size": end - o, "got": b[o:end].hex(), "want": "padding"})
+  l["end"] = o
 
 
 def _dns_skip_name(b, o, end, base, what):
